@@ -31,22 +31,42 @@ fn snapshot(intrp: &Interpreter) -> String {
   v.join(";")
 }
 
+/// `zz := <last line>` when the last line is an expression
+fn name_last(src: &str) -> String {
+  let t = src.trim_end();
+  match t.rfind('\n') {
+    Some(i) => { let (head, last) = t.split_at(i + 1); if last.contains(":=") || last.starts_with(' ') || last.trim().is_empty() { t.to_string() } else { format!("{}zz := {}", head, last) } }
+    None => if t.contains(":=") { t.to_string() } else { format!("zz := {}", t) },
+  }
+}
+
 pub fn exec(case: &str) -> String {
   let f: Vec<&str> = case.split('\t').collect();
   let k: usize = f[1].parse().unwrap();
-  let src = f[2].split(";;").map(stmt_src).collect::<Vec<_>>().join("\n");
-  let tree = match parse_code(&src) { Ok(t) => t, Err(e) => return format!("harness:{}:{}", e, hexs(&src)) };
+  // `resolve`: an assignment-free program of another generator, given as text; its last statement is
+  // given a name so that its value is part of every snapshot
+  let foreign = f[0] == "resolve";
+  let src = if foreign { name_last(&String::from_utf8(crate::c07::unhex(f[3])).unwrap()) } else { f[2].split(";;").map(stmt_src).collect::<Vec<_>>().join("\n") };
+  let tree = match parse_code(&src) { Ok(t) => t, Err(e) => return if foreign { "skip".into() } else { format!("harness:{}:{}", e, hexs(&src)) } };
   let mut a = Interpreter::new(0);
-  match std::panic::catch_unwind(std::panic::AssertUnwindSafe(|| a.interpret(&tree))) { Ok(Ok(_)) => {}, Ok(Err(e)) => return format!("harness:interpret-failed:{}", e.kind_name()), Err(_) => return "hostpanic".into() }
-  let mut snaps = vec![snapshot(&a)];
+  let with_out = |snap: String, _v: &mech_core::Value| snap;
+  let first = match std::panic::catch_unwind(std::panic::AssertUnwindSafe(|| a.interpret(&tree))) {
+    Ok(Ok(v)) => with_out(snapshot(&a), &v),
+    Ok(Err(e)) => return if foreign { "skip".into() } else { format!("harness:interpret-failed:{}", e.kind_name()) },
+    Err(_) => return if foreign { "skip".into() } else { "hostpanic".into() } };
+  let mut snaps = vec![first];
   for _ in 0..k {
-    match std::panic::catch_unwind(std::panic::AssertUnwindSafe(|| a.step(0, 1))) { Ok(Ok(_)) => snaps.push(snapshot(&a)), Ok(Err(_)) => break, Err(_) => return "hostpanic".into() }
+    match std::panic::catch_unwind(std::panic::AssertUnwindSafe(|| a.step(0, 1))) { Ok(Ok(v)) => snaps.push(with_out(snapshot(&a), &v)),
+      // a program that leaves no plan behind (a literal, a call of a user function) has nothing to re-evaluate
+      Ok(Err(e)) => { if foreign && e.kind_name() == "NoStepsInPlan" { return "skip".into(); } if foreign { snaps.push(format!("err:{}", e.kind_name())); } break },
+      Err(_) => return "hostpanic".into() }
   }
   let mut b = Interpreter::new(7);
-  let _ = std::panic::catch_unwind(std::panic::AssertUnwindSafe(|| b.interpret(&tree)));
-  let i2 = snapshot(&b);
-  let _ = std::panic::catch_unwind(std::panic::AssertUnwindSafe(|| b.step(0, k as u64)));
-  format!("{}#i2:{}#bulk:{}", snaps.join("@"), i2, snapshot(&b))
+  let rb = std::panic::catch_unwind(std::panic::AssertUnwindSafe(|| b.interpret(&tree)));
+  let i2 = match &rb { Ok(Ok(v)) => with_out(snapshot(&b), v), _ => snapshot(&b) };
+  let rs = std::panic::catch_unwind(std::panic::AssertUnwindSafe(|| b.step(0, k as u64)));
+  let bulk = match &rs { Ok(Ok(v)) => with_out(snapshot(&b), v), Ok(Err(e)) if foreign => format!("err:{}", e.kind_name()), _ => snapshot(&b) };
+  format!("{}#i2:{}#bulk:{}", snaps.join("@"), i2, bulk)
 }
 
 pub fn generate(seed: u64, thorough: bool, sink: &mut Sink) -> Vec<String> {
@@ -90,5 +110,19 @@ pub fn generate(seed: u64, thorough: bool, sink: &mut Sink) -> Vec<String> {
     sink.hit(if stmts.iter().any(|s| !s.starts_with('D')) { "program:with-assignments" } else { "program:assignment-free" });
     if it < 4 { sink.sample(cases[cases.len() - 1].clone()); }
   }
+  // assignment-free programs over the whole expression language: every operator on every kind and
+  // storage form, indexing, matrix literals, conversions, literals, sets, ranges, tables, functions
+  let mut scratch = Sink::new();
+  let per = if thorough { 3000 } else { 250 };
+  let take = |cases: Vec<String>, n: usize| -> Vec<String> { let k = cases.len(); if k <= n { cases } else { let step = k / n; cases.into_iter().step_by(step.max(1)).take(n).collect() } };
+  let mut push = |class: &str, srcs: Vec<String>, rng: &mut Rng, sink: &mut Sink| { for s in srcs { sink.hit(&format!("resolve:{}", class)); let k = 1 + rng.below(3); cases.push(format!("resolve\t{}\t{}\t{}", k, class, hexs(&s))); } };
+  push("operators", take(crate::c01::generate(seed, thorough, &mut scratch), per * 3).iter().map(|c| crate::c01::source(c)).collect(), &mut rng, sink);
+  push("indexing", take(crate::c03::generate(seed, thorough, &mut scratch), per).iter().map(|c| crate::c03::source(c)).collect(), &mut rng, sink);
+  push("matrix-literals", take(crate::c11::generate(seed, thorough, &mut scratch), per).iter().map(|c| crate::c11::source(c)).collect(), &mut rng, sink);
+  push("conversions", take(crate::c12::generate(seed, thorough, &mut scratch), per).iter().map(|c| crate::c12::source(c)).collect(), &mut rng, sink);
+  push("sets", take(crate::c14::generate(seed, thorough, &mut scratch), per).iter().map(|c| crate::c14::source(c)).collect(), &mut rng, sink);
+  push("ranges", take(crate::c15::generate(seed, thorough, &mut scratch), per).iter().map(|c| { let f: Vec<&str> = c.split('\t').collect(); crate::c15::source(&f) }).collect(), &mut rng, sink);
+  push("tables", take(crate::c18::generate(seed, thorough, &mut scratch), per / 2).iter().map(|c| crate::c18::source(c)).collect(), &mut rng, sink);
+  push("functions-and-matches", take(crate::c16::generate(seed, thorough, &mut scratch), per / 2).iter().map(|c| crate::c16::source(c)).collect(), &mut rng, sink);
   cases
 }
